@@ -70,13 +70,31 @@ def check(case):
     cl = ["entry=" + case["entry"], "kind=%s" % kind, "mode=" + case["mode"]]
     if len(a) < 2:
         return engine.discard("fewer than two sequences")
+    class OneSided(Exception):
+        pass
+
+    def both(f):
+        """run A and A'; a spelling that is accepted while the other one is rejected is a difference in the output"""
+        res, errs = [], []
+        for x in (a, b):
+            try:
+                res.append(f(x))
+                errs.append(None)
+            except kal.Rejected as e:
+                res.append(None)
+                errs.append(e)
+        if errs[0] is None and errs[1] is None:
+            return res
+        if errs[0] is not None and errs[1] is not None:
+            raise errs[0]
+        raise OneSided("A is %s, A' is %s (%s)" % ("rejected" if errs[0] else "aligned", "rejected" if errs[1] else "aligned", (errs[0] or errs[1]).what))
+
     try:
         if case["entry"] == "arr":
             ka, kb = kal.biotype_of(a), kal.biotype_of(b)
             if ka != kb and kind is None:
                 return engine.discard("detected kind differs between spellings of residues that satisfy neither C13 premise")
-            ra = kal.align_arr(a, cfg)
-            rb = kal.align_arr(b, cfg)
+            ra, rb = both(lambda x: kal.align_arr(x, cfg))
         else:
             nm = case.get("name_mode", "distinct")
             names = ["s%d" % i for i in range(len(a))] if nm == "distinct" else (["seq"] * len(a) if nm == "all_equal"
@@ -88,11 +106,9 @@ def check(case):
                 cuts = []      # kalign refuses to merge files it takes for different kinds: only parts that each carry the kind
             if cuts:
                 cl.append("files=%d" % (len(cuts) + 1))
-                ra = kal.align_named_files(names, a, cfg, cuts)
-                rb = kal.align_named_files(names, b, cfg, cuts)
+                ra, rb = both(lambda x: kal.align_named_files(names, x, cfg, cuts))
             else:
-                ra = kal.align_named(names, a, cfg)
-                rb = kal.align_named(names, b, cfg)
+                ra, rb = both(lambda x: kal.align_named(names, x, cfg))
             if ra["biotype"] != rb["biotype"] and kind is None:
                 return engine.discard("detected kind differs between spellings of residues that satisfy neither C13 premise")
     except kal.Failure as f:
@@ -101,6 +117,10 @@ def check(case):
         return engine.violation({"what": "process failure", **f.detail()}, kind="crash")
     except kal.Rejected as e:
         return engine.discard("rejected: " + e.what)
+    except OneSided as e:
+        if kind is None:
+            return engine.discard("one spelling rejected, residues satisfy neither C13 premise")
+        return engine.violation({"what": "the two spellings are not treated alike: %s" % e, "A": [x[:60] for x in a[:3]], "A'": [x[:60] for x in b[:3]], "cfg": cfg}, classes=cl)
     changed = sum(1 for x, y in zip(a, b) for p, q in zip(x, y) if p != q)
     if changed:
         cl.append("mask_nonempty")
@@ -137,6 +157,15 @@ def extra(tier, seed, stats):
             cases_.append({"seqs": seqs, "kind": "protein", "mode": mode, "pcase": 0.0, "ptu": 0.0, "mask_seed": 0,
                            "cfg": {"type": 5, "threads": 1, "gpo": -1.0, "gpe": -1.0, "tgpe": -1.0}, "entry": "file", "name_mode": "distinct",
                            "nfiles": 2, "cuts": [1]})
+    # residue text that spells a word a format sniffer may look for: every word, upper case in A, lower / mixed in A'
+    for i, w in enumerate(gen.FORMAT_WORDS):
+        seqs = gen.word_family(w, seed * 17 + i)
+        if gen.expected_kind(seqs) != "protein":
+            continue
+        for mode, pc in (("lower", 0.0), ("random", 0.5)):
+            cases_.append({"seqs": seqs, "kind": "protein", "mode": mode, "pcase": pc, "ptu": 0.0, "mask_seed": i,
+                           "cfg": {"type": 5, "threads": 1, "gpo": -1.0, "gpe": -1.0, "tgpe": -1.0}, "entry": "file", "name_mode": "distinct",
+                           "nfiles": 1})
     with ThreadPoolExecutor(max_workers=12) as ex:
         res = list(ex.map(check, cases_))
     for c, r in zip(cases_, res):
